@@ -34,7 +34,9 @@ Section Lsp.
   Inductive msg :=
     | DidOpen (u : uri) (version : Z) (t : text)
     | DidChange (u : uri) (version : Z) (changes : list text)
+    | DidClose (u : uri)                   (* the document is no longer part of what is analysed *)
     | SemTokens (id : N) (u : uri)
+    | BadParams (id : N)                   (* a request of an implemented method whose parameters do not have its shape *)
     | OtherRequest (id : N)                (* a method the server does not implement *)
     | OtherNotification                    (* likewise, without id *)
     | Response (id : N).                   (* a reply from the client *)
@@ -45,6 +47,10 @@ Section Lsp.
     | ErrorReply (id : N) (code : Z).
 
   Definition method_not_found : Z := (-32601)%Z.
+  Definition invalid_params : Z := (-32602)%Z.
+  (* HashMap::remove *)
+  Definition remove (d : docs) (u : N) : docs := filter (fun kt => negb (fst kt =? u)) d.
+  Definition close (d : docs) (u : uri) : docs := if u_file u then remove d (u_id u) else d.
 
   Definition store (d : docs) (u : uri) (t : text) : docs :=
     if u_file u then put d (u_id u) t else d.
@@ -58,8 +64,10 @@ Section Lsp.
     | DidChange u v cs =>
         let d' := match last (map Some cs) None with Some t => store d u t | None => d end in
         (d', [publish d' u v])
+    | DidClose u => (close d u, [])
     | SemTokens id u =>
         (d, [Reply id (if u_file u then tokens (get d (u_id u)) else null_tokens)])
+    | BadParams id => (d, [ErrorReply id invalid_params])
     | OtherRequest id => (d, [ErrorReply id method_not_found])
     | OtherNotification => (d, [])
     | Response _ => (d, [])
